@@ -1,0 +1,78 @@
+//go:build verif
+
+package notification
+
+// Contracts checked by /verif/gocv (comment-only file; see /verif/DESIGN.md §3).
+//
+// C22. An outbox entry exists iff the mutation committed: the mutation and the outbox insert share ONE transaction.
+
+// The transaction body of runWithNotifications: a failed mutation returns its error (so WithTx rolls back) and
+// enqueues nothing; after a successful mutation the events are enqueued in this very transaction and an enqueue
+// failure fails the transaction (the mutation is rolled back with it).
+//@ func (*StorageMiddleware).runWithNotifications$1
+//@ mode effects
+//@ ensures[C22:failed-mutation-enqueues-nothing] called(mutate) && result_of(mutate, 1) != nil ==> err != nil && !called(m.enqueueEvents)
+//@ ensures[C22:successful-mutation-is-enqueued] called(mutate) && result_of(mutate, 1) == nil ==> called(m.enqueueEvents)
+//@ ensures[C22:enqueue-failure-fails-the-transaction] called(m.enqueueEvents) && result_of(m.enqueueEvents, 0) != nil ==> err != nil
+//@ effect[C22:enqueued-in-the-mutation-transaction] every m.enqueueEvents(_, $t, $ev) where $t == tx
+
+// runWithNotifications runs the mutation inside the transaction it opens on the middleware's database.
+//@ func (*StorageMiddleware).runWithNotifications
+//@ mode effects
+//@ effect[C22:mutation-runs-in-a-transaction] every mutate(_) needs before m.db.BeginTx(_, _) -> (_, $e) where $e == nil
+
+// enqueueEvents considers EVERY event of the batch (it returns nil only after the entries of each event were computed),
+// stores entries through the caller's SQL transaction under this outbox, and reports a failed insert.
+//@ func (*StorageMiddleware).enqueueEvents
+//@ mode effects
+//@ history[C22:h-entries-built] every m.buildEntriesForEvent(_, $ev) -> (_, $e) where $e == nil ==> histEntriesBuilt($ev.Bucket, $ev.Key, $ev.EventName)
+//@ loop 0 invariant 0 <= iter__ && iter__ <= len(range__) &&
+//@     forall k :: 0 <= k && k < iter__ ==> histEntriesBuilt(range__[k].Bucket, range__[k].Key, range__[k].EventName)
+//@ ensures[C22:every-event-considered] err == nil ==> forall k :: 0 <= k && k < len(events) ==> histEntriesBuilt(events[k].Bucket, events[k].Key, events[k].EventName)
+//@ effect[C22:entries-stored-in-the-callers-transaction] every m.repository.Save(_, $s, $id, $e) needs before tx.SqlTx() -> ($r) where $s == $r && $id == m.outboxID
+//@ effect[C22:failed-insert-reported] every m.repository.Save(_, _, _, _) -> ($se) where $se == nil || err != nil
+
+// Delivery: one publish attempt per claimed entry, then exactly the documented follow-up: delete on success;
+// dead-letter when the attempt budget is exhausted (MaxAttempts > 0 and Attempts >= MaxAttempts); otherwise release
+// for a retry at the time nextAttemptAt computed.
+//@ func (*StorageMiddleware).dispatchEntry
+//@ mode effects
+//@ requires entry != nil
+//@ ensures[C22:published-entry-deleted] called(m.publisher.Publish) && result_of(m.publisher.Publish, 0) == nil ==> called(m.deleteClaimed) && !called(m.deadLetter) && !called(m.release)
+//@ ensures[C22:failed-entry-kept] called(m.publisher.Publish) && result_of(m.publisher.Publish, 0) != nil ==> !called(m.deleteClaimed) && (called(m.deadLetter) || called(m.release)) && !(called(m.deadLetter) && called(m.release))
+//@ effect[C22:dead-letter-only-when-exhausted] every m.deadLetter(_, $e, _) where $e != nil && m.dispatcher.MaxAttempts > 0 && $e.Attempts >= m.dispatcher.MaxAttempts
+//@ effect[C22:retry-while-budget-lasts] every m.release(_, $e, _, _) where $e != nil && !(m.dispatcher.MaxAttempts > 0 && $e.Attempts >= m.dispatcher.MaxAttempts)
+//@ effect[C22:follow-up-names-the-published-entry] every m.publisher.Publish(_, $p) where $p == entry
+//@ effect[C22:delete-names-the-entry] every m.deleteClaimed(_, $e) where $e == entry
+//@ effect[C22:dead-letter-names-the-entry] every m.deadLetter(_, $e, _) where $e == entry
+//@ effect[C22:retry-time-from-backoff] every m.release(_, $e, $at, _) needs before m.nextAttemptAt($ne) -> ($t) where $e == entry && $ne == entry && $at.Equal($t)
+
+// The backoff bounds are ordered after defaults were applied (nextAttemptAt clamps the delay to MaxBackoff).
+//@ func (DispatcherConfig).withDefaults
+//@ arith int
+//@ ensures[C22:backoff-bounds-ordered] result.MinBackoff > 0 && result.MinBackoff <= result.MaxBackoff
+//@ ensures[C22:attempt-budget-unchanged] result.MaxAttempts == c.MaxAttempts
+
+// The claim: whenever the finder returns a candidate (a row that is unclaimed or whose lease expired - that is what
+// the SQL selects), the claiming UPDATE is attempted for it; it is reported claimed only if exactly one row changed.
+//@ func (*SQLRepository).ClaimFirst
+//@ mode effects
+//@ ensures[C22:candidate-is-claimed] called(scanEntry) && result_of(scanEntry, 0) != nil && result_of(scanEntry, 1) == nil ==> called(tx.ExecContext)
+//@ ensures[C22:claimed-means-one-row-updated] result1 ==> called(tx.ExecContext) && err == nil && result != nil
+
+// Frame contracts: computing the backoff and recording metrics do not modify the entry (dispatchEntry relies on this
+// between its decision and the follow-up call).
+//@ func (*StorageMiddleware).nextAttemptAt
+//@ property C22
+//@ mode effects
+//@ frame
+
+//@ func (*notificationMetrics).recordRetry
+//@ property C22
+//@ mode effects
+//@ frame
+
+//@ func (*notificationMetrics).recordFailed
+//@ property C22
+//@ mode effects
+//@ frame
